@@ -1,17 +1,17 @@
 SPECIFICATION Spec
 CONSTANTS
-  P = {1}
-  E = {1, 2}
+  P = {1, 2}
+  E = {3, 4, 5, 7, 8}
   Owner <- OwnerDef
   IsReader <- IsReaderDef
   OnTopic <- OnTopicDef
   Compatible <- CompatibleDef
   DefaultLease = 60000
-  Late = FALSE
-  Leases = {1100, 2500}
-  Dts = {400, 1000}
-  MaxSteps = 10
-  MaxTime = 6000
+  Late = TRUE
+  Leases = {1100}
+  Dts = {2000}
+  MaxSteps = 6
+  MaxTime = 2000
   GenK = 40
 CONSTRAINT Bound
 VIEW View
